@@ -100,3 +100,40 @@ PROPS['C17'] = dict(
         [dict(target='repro', family='repro', mode='random', cases=12000, workers=14, timeout=600, flaky_is_violation=True)],
         [dict(target='repro', family='repro', mode='random', cases=200000, workers=16, timeout=3000, flaky_is_violation=True)]),
 )
+
+PROPS['C07'] = dict(
+    level='exploration',
+    assumptions=FIBER_ASSUME,
+    technique='rapidcheck-generated (executor stack, submitters, jobs, stop point, schedule) cases + bounded-exhaustive '
+              'schedules of the smallest configurations; history-validity oracle (exactly-once, overlap, order, accounting)',
+    level_text='1..3 submitter fibers push 1..4 instrumented jobs each (some re-submitting a child) into a Strand over '
+               'FairThreadPool(1..3) / Strand / Manual drained by a fiber / Inline / a refusing executor while another '
+               'fiber stops the pool at a generated point; every schedule decision comes from the explorer. Checked: no '
+               'two strand jobs overlap, execution respects program order and submit-returned-before-submit-began '
+               'order, each job is Called xor Dropped exactly once and all are accounted for after the harness stopped '
+               'and joined the pool, Drop only if something refused, no fiber parked (n=1 included).',
+    level_note='Happens-before between consecutive jobs is covered by C04 (TSan), not here. Trusts the scheduler substrate.',
+    jobs=q(
+        [dict(target='exec', family='strand', mode='random', cases=20000, workers=12, timeout=600),
+         dict(target='exec', family='strand', mode='dfs', bound=1, workers=4, timeout=600, args=['--dfs-cap', '2500'])],
+        [dict(target='exec', family='strand', mode='random', cases=300000, workers=14, timeout=3000),
+         dict(target='exec', family='strand', mode='dfs', bound=2, workers=12, timeout=3000, args=['--dfs-cap', '100000'])]),
+)
+
+PROPS['C08'] = dict(
+    level='exploration',
+    assumptions=FIBER_ASSUME,
+    technique='rapidcheck-generated (submitters, jobs, workers, stop kind/point, schedule) cases + bounded-exhaustive '
+              'schedules of the smallest configurations; accounting / Wait-barrier / FIFO oracle',
+    level_text='1..3 submitter fibers x 1..4 jobs, 1..3 workers, one fiber calling Stop / SoftStop / HardStop after a '
+               'generated number of yields (or after all submits), then Wait. A job is accepted iff it was not Dropped '
+               'when Submit returned; accepted => Called once unless HardStop removed it; refused => Dropped once; no '
+               'Call after Wait returned; with one worker jobs start in submission order; no fiber parked.',
+    level_note='Trusts the scheduler substrate and the explorer; SoftStop wish semantics as implemented (harness joins '
+               'submitters and calls Stop before Wait, as a client must).',
+    jobs=q(
+        [dict(target='exec', family='pool', mode='random', cases=20000, workers=12, timeout=600),
+         dict(target='exec', family='pool', mode='dfs', bound=1, workers=4, timeout=600, args=['--dfs-cap', '5000'])],
+        [dict(target='exec', family='pool', mode='random', cases=300000, workers=14, timeout=3000),
+         dict(target='exec', family='pool', mode='dfs', bound=2, workers=8, timeout=3000, args=['--dfs-cap', '100000'])]),
+)
